@@ -245,6 +245,10 @@ fn structural_exhaustive(run: &mut Run, name: &str, hits_only: bool) {
 pub struct C02Case {
     pub tl: TlDesc,
     pub start: Option<Vals>,
+    /// 0 = the timeline itself; 1 = `MergedTimeline::of([tl])`; 2 = `MergedTimeline::of([tl, tl])`
+    /// (merged timelines are timelines too: same instants, same values)
+    #[serde(default)]
+    pub wrap: u8,
 }
 
 fn dyadic_timing_strategy() -> impl Strategy<Value = Timing> {
@@ -265,14 +269,16 @@ fn dyadic_kf_strategy() -> impl Strategy<Value = KfDesc> {
 }
 
 pub fn c02_strategy() -> impl Strategy<Value = C02Case> {
-    (dyadic_timing_strategy(), ez_strategy(), prop::collection::vec(dyadic_kf_strategy(), 0..=7), prop::option::weighted(0.3, vals_strategy())).prop_map(|(timing, default_ez, kfs, start)| {
-        let tl = TlDesc { timing, default_ez, kfs, order: 0 }.sanitize();
-        let back = tl.uses_back();
-        C02Case { tl, start: start.map(|v| sanitize_vals(v, back)) }
-    })
+    (dyadic_timing_strategy(), ez_strategy(), prop::collection::vec(dyadic_kf_strategy(), 0..=7), prop::option::weighted(0.3, vals_strategy()), prop_oneof![6 => Just(0u8), 1 => Just(1u8), 1 => Just(2u8)]).prop_map(
+        |(timing, default_ez, kfs, start, wrap)| {
+            let tl = TlDesc { timing, default_ez, kfs, order: 0 }.sanitize();
+            let back = tl.uses_back();
+            C02Case { tl, start: start.map(|v| sanitize_vals(v, back)), wrap }
+        },
+    )
 }
 
-pub const C02_LABELS: [&str; 9] = ["kf_hit", "kf_hit_distinct_from_neighbours", "reverse_pass_hit", "cycle_ge_1_hit", "before_delay", "end_of_forward_pass", "after_total", "ambiguous_position_skipped", "not_representable_skipped"];
+pub const C02_LABELS: [&str; 10] = ["kf_hit", "kf_hit_distinct_from_neighbours", "reverse_pass_hit", "cycle_ge_1_hit", "before_delay", "end_of_forward_pass", "after_total", "ambiguous_position_skipped", "not_representable_skipped", "through_merged_wrapper"];
 
 fn float_close(got: f32, want: f64, ulps: u64) -> bool {
     let w = want as f32;
@@ -291,7 +297,12 @@ fn c02_expect(i: usize, target: &P, want: f64, what: &str, t: f32) -> Result<(),
 pub fn c02_judge(c: &C02Case, obs: &mut Obs) -> Result<(), String> {
     let model = ModelTl::new(&c.tl);
     let tm = c.tl.timing;
-    let mut tl = c.tl.build();
+    let mut tl: Box<dyn Timeline<Target = P>> = match c.wrap {
+        0 => Box::new(c.tl.build()),
+        1 => Box::new(MergedTimeline::of([c.tl.build()])),
+        _ => Box::new(MergedTimeline::of([c.tl.build(), c.tl.build()])),
+    };
+    obs.label_if(9, c.wrap != 0);
     if let Some(v) = &c.start {
         tl.start_with(&P::from_vals(v));
     }
@@ -454,7 +465,7 @@ pub fn c02(run: &mut Run) {
     let cases = run.tier.pick(100_000, 5_000_000);
     run.prop(
         "c02_exact",
-        "proptest over dyadic configurations; inside each case EVERY keyframe x EVERY cycle k (x both passes when reversing), end of every forward pass, 7 times <= delay, 6 times >= total are judged with equality (ints exact, floats <= 2 ulp); non-trivial = a keyframe hit whose value differs from both neighbours; distinct = hash of the case",
+        "proptest over dyadic configurations (a quarter of them queried through MergedTimeline::of([tl]) / of([tl, tl]) wrappers); inside each case EVERY keyframe x EVERY cycle k (x both passes when reversing), end of every forward pass, 7 times <= delay, 6 times >= total are judged with equality (ints exact, floats <= 2 ulp); non-trivial = a keyframe hit whose value differs from both neighbours; distinct = hash of the case",
         &C02_LABELS,
         c02_strategy(),
         cases,
